@@ -156,6 +156,10 @@ class HybridShardDistributor(DistributorInterface):
         # Instantiates this by using DeviceMesh.
         ranks_in_all_replicated_groups = self._hybrid_shard_device_mesh.mesh.T
         for ranks_in_replicated_group in ranks_in_all_replicated_groups:
+            # Same (ascending) rank order as dist.get_process_group_ranks() gives in _allocate_zeros_distributed_tensor:
+            # on a mesh whose replicate dimension is not ascending the two meshes differed, and every rank then created
+            # the process groups of its own replicate group only (different new_group calls on different ranks).
+            ranks_in_replicated_group = ranks_in_replicated_group.sort().values
             device_mesh = get_device_mesh(
                 device_type=self._hybrid_shard_device_mesh.device_type,
                 mesh=tuple(
